@@ -4,7 +4,9 @@ import (
 	"context"
 	"fmt"
 	"os"
+	"regexp"
 	"runtime"
+	"strings"
 	"sync"
 
 	"oss.terrastruct.com/d2/d2graph"
@@ -58,6 +60,22 @@ func layoutD2(src string) (*d2target.Diagram, *d2graph.Graph, error) {
 		LayoutResolver: resolver,
 		Layout:         go2.Pointer("dagre"),
 	}, nil)
+}
+
+var (
+	reQuoted = regexp.MustCompile(`"[^"]*"`)
+	reNumber = regexp.MustCompile(`[-+]?[0-9]+(\.[0-9]+)?`)
+)
+
+// errClass turns a compile/layout error into a failure class without input-specific names and numbers.
+func errClass(err error) string {
+	m := u.StripDigits(err.Error())
+	if i := strings.Index(m, "\n"); i >= 0 {
+		m = m[:i]
+	}
+	m = reQuoted.ReplaceAllString(m, `"…"`)
+	m = reNumber.ReplaceAllString(m, "N")
+	return "compile-or-layout-error:" + m
 }
 
 type rect struct{ x, y, w, h float64 }
